@@ -138,7 +138,7 @@ SIBLINGS = {"Some": ("Option", "None"), "None": ("Option", "Some"), "Ok": ("Resu
 
 
 # a sink parameter: `&mut W` (generic) or `&mut dyn io::Write`
-SINK_TY = r"^&mut ([A-Z]\w*|dyn std::io::Write( \+ '\w+)?)$"
+SINK_TY = r"^&mut ([A-Z]\w*|impl (std::io::)?Write|dyn std::io::Write( \+ '\w+)?)$"
 
 
 def short_adt(path):
